@@ -289,7 +289,7 @@ def c14(tier):
         run_s2c(rep, "MC_SMT", smt_cfg(depth=16, keys="K16", ops=16, trunc="TFull16", emit="INVARIANT EmitSt"), R,
                 simulate=dict(num=2400, depth=16))
     need(rep, ["non-blank-default", "blank-value-written", "absent-key", "calls:calc_root"])
-    smt_traces(rep, tier, {"C14"}, quick_sizes=(1, 2, 20, 30))
+    smt_traces(rep, tier, {"C14"}, quick_sizes=(1, 2, 20))
     return rep.finish()
 
 
@@ -315,7 +315,7 @@ def c15(tier):
         run_s2c(rep, "MC_SMT", smt_cfg(depth=16, keys="K16", ops=16, trunc="T16few", emit="INVARIANT EmitSt"), R,
                 simulate=dict(num=2400, depth=16))
     need(rep, ["proof-tracked", "truncated-list-refused", "calls:proof.update"])
-    smt_traces(rep, tier, {"C15"}, quick_sizes=(1, 7, 8, 30))
+    smt_traces(rep, tier, {"C15"}, quick_sizes=(1, 7, 20))
     return rep.finish()
 
 
@@ -464,11 +464,18 @@ def smt_traces(rep, tier, owners, quick_sizes=(1, 2, 7, 8, 20, 30)):
     # (the JSON reader of TLC's Json module refuses nesting deeper than 255: the decoded tree of a
     # 31- or 32-byte key does not fit; those sizes are covered by the depth-256 spec->code runs)
     sizes = list(quick_sizes) if tier == "quick" else [1, 2, 3, 5, 7, 8, 9, 13, 16, 20, 24, 28, 30]
-    per = 12 if tier == "quick" else 150
+    per = 10 if tier == "quick" else 150
     counts = {}
     from concurrent.futures import ThreadPoolExecutor
 
-    batches = {ks: [t for t in (sd.gen_trace(mod, rng, ks) for _ in range(per)) if t["ev"]] for ks in sizes}
+    made = {ks: [sd.gen_trace(mod, rng, ks) for _ in range(per)] for ks in sizes}
+    for ks, ts in made.items():
+        for t in ts:
+            if t.get("broken") and "C14" in owners:
+                rep.violation("C14.tree-is-not-a-sparse-tree-over-its-default",
+                              {"key_size": ks, "default": t["dflt"], "calls": t["calls"][:6]},
+                              {"kind": "smt-calls", "key_size": ks, "default": t["dflt"], "calls": t["calls"]})
+    batches = {ks: [t for t in ts if t["ev"]] for ks, ts in made.items()}
 
     def one(ks):
         pipeline.code_to_spec(rep, "Trace_SMT", "Trace_SMT.cfg", batches[ks], consts=("TraceConsts_SMT", sd.consts),
